@@ -24,7 +24,7 @@ CHECKS = {
 
 CHECKS["C01"] = dict(
     text=("Theorems for ALL meshes / all pairs of vertex functions about the Gallina model of Solver._fem_tria/_fem_tetra/_fem_tria_aniso: "
-          "entrywise symmetry and constants->0 (any geometry); on non-degenerate meshes (the code's own guard inactive) f.A.g = sum of "
+          "entrywise symmetry and constants->0 (any geometry); on meshes whose triangles / tetrahedra have non-zero measure (any length unit; after fixes 72e7cef / 841e03d the code's guards act on exact zeros only) f.A.g = sum of "
           "measure * grad f . grad g with the spec gradient characterised independently, hence PSD; all denominators non-zero; aniso: "
           "symmetric, constant-annihilating, PSD for weights >= 0, weights from aniso >= 0 lie in (0,1], element blocks equal the isotropic "
           "ones for weights (1,1) and never exceed them for weights in [0,1] given an orthonormal in-plane frame; on non-degenerate "
@@ -112,7 +112,7 @@ CHECKS["C20"] = dict(
     design="6/C20", technique="Coq invariant proof over operation histories + AST translator re-checked by vm_compute + exhaustive short histories")
 
 CHECKS["C06"] = dict(
-    text=("Theorems over R about the Gallina model of the five operators (guards inactive): the triangle gradient equals the gradient of "
+    text=("Theorems over R about the Gallina model of the five operators, for every element of non-zero measure (any length unit): the triangle gradient equals the gradient of "
           "the linear interpolant (spec of C01), is the projection of a for affine data; both triangle divergences are the negative "
           "adjoint per element for EVERY field X; assembled: sum_i f_i div(X)_i = -sum_t area_t X_t.grad_t f for all f, X, meshes; "
           "entries of div sum to zero; div(grad g) = -A g with the stiffness of C01; tets (after fix e9245f1): gradient = interpolant "
